@@ -7,9 +7,11 @@ import (
 	"fmt"
 	"os"
 	"path/filepath"
+	"runtime"
 	"sort"
 	"strconv"
 	"strings"
+	"sync"
 	"unicode/utf8"
 
 	zlint "github.com/zmap/zlint/v3"
@@ -158,6 +160,7 @@ func subCodec(out string, seed uint64, tier string, arg string) {
 	if tier == "thorough" {
 		nobj = len(objs)
 	}
+	var kept []keptEnc
 	for i := 0; i < nobj && i < len(objs); i++ {
 		o := objs[(i*7)%len(objs)]
 		rs, p := lintObj(o, g)
@@ -184,30 +187,50 @@ func subCodec(out string, seed uint64, tier string, arg string) {
 			rep.violate(Violation{"C14", "result set of " + o.Name + " does not marshal: " + err.Error(), "marshal", replayOf(o, nil)})
 			continue
 		}
-		var back zlint.ResultSet
-		if err := json.Unmarshal(b, &back); err != nil {
-			rep.violate(Violation{"C14", "marshalled result set of " + o.Name + " does not unmarshal: " + err.Error(), "unmarshal", replayOf(o, nil)})
+		kept = append(kept, keptEnc{o, rs, b, string(b)})
+		checkDecoded(rep, o, rs, b, "")
+	}
+	// encodings handed out earlier must still be what they were (an encoder that returns a slice of a buffer it
+	// re-uses would rewrite them), and still decode to their own result set
+	for _, k := range kept {
+		rep.Evaluations++
+		if string(k.b) != k.snap {
+			rep.violate(Violation{"C14", "the bytes returned when encoding the result set of " + k.o.Name + " changed after later result sets were encoded", "encoding-aliased", replayOf(k.o, nil)})
 			continue
 		}
-		if back.NoticesPresent != rs.NoticesPresent || back.WarningsPresent != rs.WarningsPresent || back.ErrorsPresent != rs.ErrorsPresent || back.FatalsPresent != rs.FatalsPresent || back.Version != rs.Version {
-			rep.violate(Violation{"C14", "flags/version changed in a JSON round trip of " + o.Name, "flags", replayOf(o, nil)})
+		checkDecoded(rep, k.o, k.rs, k.b, " (decoded after all other result sets had been encoded)")
+	}
+	// several goroutines encoding and decoding their own result sets at the same time
+	if len(kept) > 1 {
+		var wg sync.WaitGroup
+		var mu sync.Mutex
+		for w := 0; w < 8; w++ {
+			wg.Add(1)
+			go func(w int) {
+				defer wg.Done()
+				for it := 0; it < 40; it++ {
+					k := kept[(w*7+it)%len(kept)]
+					b, err := json.Marshal(k.rs)
+					if err != nil {
+						mu.Lock()
+						rep.violate(Violation{"C14", "result set of " + k.o.Name + " does not marshal while other goroutines encode theirs: " + err.Error(), "marshal-concurrent", replayOf(k.o, nil)})
+						mu.Unlock()
+						continue
+					}
+					cp := append([]byte{}, b...)
+					runtime.Gosched()
+					mu.Lock()
+					if string(cp) != string(b) || string(b) != k.snap {
+						rep.violate(Violation{"C14", "encoding the result set of " + k.o.Name + " concurrently with others gives other bytes than encoding it alone", "encoding-concurrent", replayOf(k.o, nil)})
+					} else {
+						checkDecoded(rep, k.o, k.rs, b, " (encoded concurrently)")
+					}
+					rep.Evaluations++
+					mu.Unlock()
+				}
+			}(w)
 		}
-		if len(back.Results) != len(rs.Results) {
-			rep.violate(Violation{"C14", "number of results changed in a JSON round trip of " + o.Name, "count", replayOf(o, nil)})
-		}
-		for n, r := range rs.Results {
-			br := back.Results[n]
-			if br == nil {
-				rep.violate(Violation{"C14", "result " + n + " lost in a JSON round trip", "lost:" + n, replayOf(o, nil)})
-				continue
-			}
-			if br.Status != r.Status {
-				rep.violate(Violation{"C14", fmt.Sprintf("status of %s changed in a JSON round trip: %s -> %s", n, r.Status, br.Status), "status:" + r.Status.String(), replayOf(o, map[string]interface{}{"lint": n})})
-			}
-			if want := perByteSanitize(r.Details); br.Details != want {
-				rep.violate(Violation{"C14", fmt.Sprintf("details of %s changed in a JSON round trip: %q -> %q (expected %q)", n, r.Details, br.Details, want), "details", replayOf(o, map[string]interface{}{"lint": n, "details_hex": hexs([]byte(r.Details))})})
-			}
-		}
+		wg.Wait()
 	}
 	// ---- listing of a registry in which two kinds share a name (names are only unique within a kind): every
 	// registered lint still gets its own line — the multiset of (name, description, citation, source) is preserved
@@ -448,4 +471,39 @@ func subMeta(out string, seed uint64, tier string, arg string) {
 	}
 	rep.sample(map[string]interface{}{"names": len(g.Names()), "sources": len(g.Sources()), "profiles": len(lint.AllProfiles())})
 	rep.write(filepath.Join(out, "report.json"))
+}
+
+type keptEnc struct {
+	o    *Obj
+	rs   *zlint.ResultSet
+	b    []byte
+	snap string
+}
+
+// checkDecoded: b must decode to rs (statuses, sanitised details, flags, version, number of results)
+func checkDecoded(rep *Report, o *Obj, rs *zlint.ResultSet, b []byte, when string) {
+	var back zlint.ResultSet
+	if err := json.Unmarshal(b, &back); err != nil {
+		rep.violate(Violation{"C14", "marshalled result set of " + o.Name + " does not unmarshal" + when + ": " + err.Error(), "unmarshal", replayOf(o, nil)})
+		return
+	}
+	if back.NoticesPresent != rs.NoticesPresent || back.WarningsPresent != rs.WarningsPresent || back.ErrorsPresent != rs.ErrorsPresent || back.FatalsPresent != rs.FatalsPresent || back.Version != rs.Version {
+		rep.violate(Violation{"C14", "flags/version changed in a JSON round trip of " + o.Name + when, "flags", replayOf(o, nil)})
+	}
+	if len(back.Results) != len(rs.Results) {
+		rep.violate(Violation{"C14", "number of results changed in a JSON round trip of " + o.Name, "count", replayOf(o, nil)})
+	}
+	for n, r := range rs.Results {
+		br := back.Results[n]
+		if br == nil {
+			rep.violate(Violation{"C14", "result " + n + " lost in a JSON round trip", "lost:" + n, replayOf(o, nil)})
+			continue
+		}
+		if br.Status != r.Status {
+			rep.violate(Violation{"C14", fmt.Sprintf("status of %s changed in a JSON round trip%s: %s -> %s", n, when, r.Status, br.Status), "status:" + r.Status.String(), replayOf(o, map[string]interface{}{"lint": n})})
+		}
+		if want := perByteSanitize(r.Details); br.Details != want {
+			rep.violate(Violation{"C14", fmt.Sprintf("details of %s changed in a JSON round trip: %q -> %q (expected %q)", n, r.Details, br.Details, want), "details", replayOf(o, map[string]interface{}{"lint": n, "details_hex": hexs([]byte(r.Details))})})
+		}
+	}
 }
